@@ -166,6 +166,48 @@ def r6_unary_over_chains(ctx, rule="C10.R6"):
     ctx.require(rule, 150)
 
 
+def r7_no_double_rounding(ctx, rule="C10.R7"):
+    """`a numeric literal denotes exactly its written value`: a SINGLE literal must be parsed into
+    an f32 directly.  Parsing the text as f64 and narrowing with `as f32` rounds twice and is off by
+    one unit in the last place for texts near a rounding midpoint.  No function of the parser may
+    narrow a float (f64 -> f32); the cast of the same kind in the linter's QBNumberCast is the
+    positive example that the detector must see."""
+    prog = ctx.prog
+
+    def narrowing(fn):
+        out = []
+        for b, blk in enumerate(fn.body.blocks):
+            if fn.body.is_cleanup(b):
+                continue
+            for st in blk["s"]:
+                r = st.get("r", {})
+                if st["k"] == "assign" and r.get("k") == "cast" and r.get("ck") == "FloatToFloat" \
+                        and fn.body.locals[st["p"][0]]["ty"] == "f32":
+                    out.append(st.get("ln"))
+        return out
+    seen_positive = False
+    n = 0
+    for fn in sorted(prog.fns.values(), key=lambda f: f.id):
+        if fn.body is None or fn.kind == "const":
+            continue
+        ns = narrowing(fn)
+        if fn.crate == "rusty_linter" and "QBNumberCast" in fn.path and ns:
+            seen_positive = True
+        if fn.crate != "rusty_parser":
+            continue
+        n += 1
+        for ln in ns:
+            owner = prog.enclosing_fn(fn) or fn
+            ctx.violation(rule, "%s:%s:f64-as-f32" % (rule, owner.path.split("::", 1)[1]), "%s:%s" % (fn.file, ln),
+                          "%s narrows an f64 to f32: a SINGLE literal built this way is rounded twice (decimal text -> "
+                          "f64 -> f32) and can differ from the nearest SINGLE of the written value" % fn.path, {})
+    if not seen_positive:
+        raise CheckError("%s: the detector no longer sees the f64 -> f32 cast of QBNumberCast (self-test)" % rule)
+    ctx.ok(rule, rule + ":parser-scanned", "rusty_parser", "%d parser functions, no f64 -> f32 narrowing" % n)
+    ctx.analysed_units(rule, parser_functions=n)
+    ctx.require(rule, 1)
+
+
 def _literal_shapes(eng, fn, args):
     """Result shapes reduced to Ok(<literal variant>) / Err(<error variant>)."""
     out = set()
@@ -291,5 +333,6 @@ def run(ctx):
                                 adt="rusty_parser::expr::types::Expression", floor=2)
     r4_decimal_total(ctx, eng)
     r6_unary_over_chains(ctx)
+    r7_no_double_rounding(ctx)
     if eng.imprecise:
         ctx.notes.append("abstract interpreter imprecision: %s" % eng.imprecise[:5])
